@@ -204,6 +204,16 @@ class IrqMonitor:
                 if b[key] > a[key] and not (b["isr"] & bit):
                     self._v("timer_fired_without_status_bit", timer=key, before=a[key], after=b[key], isr=b["isr"],
                             executed=executed, in_handler=bool(self.frames))
+        # ---------------- a masked key request is not lost -----------------------------------------------------
+        # queued key events with KEYI raised, while the key source cannot be delivered (master enable or KEY mask clear
+        # before and after the step): no instruction of these programs reads KIL, so whatever the step did (e.g. a
+        # handler's blanket `MV (ISR),0`) the events and the request must still be there when the mask opens again
+        if (a.get("fifo") and (a["isr"] & 4) and (a["imr"] & 0x84) != 0x84 and (b["imr"] & 0x84) != 0x84 and not entry
+                and executed != 0xFF and self.kb_irq and not was_low_power):
+            self.stats["masked_key_steps"] = self.stats.get("masked_key_steps", 0) + 1
+            if not b.get("fifo") and not (b["isr"] & 4):
+                self._v("masked_key_request_discarded", imr=a["imr"], isr_before=a["isr"], isr_after=b["isr"],
+                        fifo_before=a.get("fifo"), executed=executed, pc=a["pc"])
         # ---------------- KEYI edge (machine level, C14 clause) ---------------------------------------------
         if not py and (b["isr"] & 4) and not (a["isr"] & 4) and not (self.injected_isr & 4):
             if not self.kb_irq or not (a.get("fifo") or b.get("fifo")):
